@@ -7,10 +7,14 @@ package drivers
 import (
 	"encoding/json"
 	"fmt"
+	hclog "github.com/hashicorp/go-hclog"
+	"net"
 	"os"
+	"os/exec"
 	"path/filepath"
 	"runtime"
 	"strconv"
+	"strings"
 	"sync"
 	"syscall"
 	"testing"
@@ -45,10 +49,11 @@ type killObs struct {
 }
 
 type startedPlugin struct {
-	pair   *vp.Pair // the client used for Kill
-	orig   *vp.Pair // for reattach: the client that launched the process
-	pid    int
-	marker string
+	pair     *vp.Pair // the client used for Kill
+	orig     *vp.Pair // for reattach: the client that launched the process
+	pid      int
+	marker   string
+	launcher *exec.Cmd // foreign launch: the shell that is the plugin's parent
 }
 
 func protoSets(proto string) (string, bool) {
@@ -59,6 +64,59 @@ func protoSets(proto string) (string, bool) {
 		return "grpc", true
 	}
 	return "netrpc", false
+}
+
+// startForeign launches the plugin as a grandchild (its parent is a shell that stays around and
+// reaps it) and reattaches to it from the handshake line it printed: the process the client kills
+// is not a child of the host process, as with a plugin that outlived the host that launched it.
+func startForeign(c killCase, sp *startedPlugin, pc *vp.PluginCfg, bin, tmp string, managed bool) (*vp.Stub, error) {
+	if pc.CookieKey == "" {
+		pc.CookieKey, pc.CookieValue = vp.CookieKey, vp.CookieValue
+	}
+	pcb, _ := json.Marshal(pc)
+	base := filepath.Join(tmp, c.Name+"."+strconv.Itoa(int(time.Now().UnixNano()%1e9)))
+	sh := exec.Command("/bin/sh", "-c", `"$0" > "$1.out" 2> "$1.err" & echo $! > "$1.pid"; wait`, bin, base)
+	sh.Env = append(os.Environ(), vp.CfgEnv+"="+string(pcb), vp.CookieKey+"="+vp.CookieValue, "TMPDIR="+tmp)
+	if err := sh.Start(); err != nil {
+		return nil, err
+	}
+	sp.launcher = sh
+	go sh.Wait()
+	var line string
+	for i := 0; i < 500; i++ {
+		if b, err := os.ReadFile(base + ".out"); err == nil && strings.Contains(string(b), "\n") {
+			line = strings.SplitN(string(b), "\n", 2)[0]
+			break
+		}
+		time.Sleep(10 * time.Millisecond)
+	}
+	if b, err := os.ReadFile(base + ".pid"); err == nil {
+		sp.pid, _ = strconv.Atoi(strings.TrimSpace(string(b)))
+	}
+	parts := strings.Split(line, "|")
+	if len(parts) < 5 || sp.pid == 0 {
+		return nil, fmt.Errorf("foreign launch: no handshake line (%q)", line)
+	}
+	rc := &plugin.ReattachConfig{Protocol: plugin.Protocol(parts[4]), ProtocolVersion: 1, Pid: sp.pid,
+		Addr: &net.UnixAddr{Name: parts[3], Net: "unix"}}
+	cfg := &plugin.ClientConfig{HandshakeConfig: plugin.HandshakeConfig{ProtocolVersion: 1, MagicCookieKey: vp.CookieKey, MagicCookieValue: vp.CookieValue},
+		Plugins: vp.Set("grpc", "1"), Reattach: rc, Logger: hclog.NewNullLogger(), Managed: managed,
+		AllowedProtocols: []plugin.Protocol{plugin.ProtocolNetRPC, plugin.ProtocolGRPC}}
+	c2 := plugin.NewClient(cfg)
+	sp.pair = &vp.Pair{Client: c2, Config: cfg}
+	cp, err := c2.Client()
+	if err != nil {
+		return nil, err
+	}
+	raw, err := cp.Dispense("v")
+	if err != nil {
+		return nil, err
+	}
+	stub := raw.(*vp.Stub)
+	if _, err := stub.Do(vp.Cmd{Op: "tag"}); err != nil {
+		return nil, err
+	}
+	return stub, nil
 }
 
 func startForKill(c killCase, bin, tmp string, managed bool) (*startedPlugin, error) {
@@ -72,6 +130,13 @@ func startForKill(c killCase, bin, tmp string, managed bool) (*startedPlugin, er
 		pc.AfterServe = "hang"
 	case "failedhandshake":
 		pc.MockLine, pc.MockThen = "1|999|unix|/nonexistent|netrpc|\nmore plugin output on stdout\nand more\n", "idle"
+	}
+	if c.Launch == "foreign" {
+		stub, err := startForeign(c, sp, pc, bin, tmp, managed)
+		if err != nil {
+			return sp, err
+		}
+		return sp, applyBehaviour(c, sp, stub)
 	}
 	launch := c.Launch
 	if launch == "reattach" {
@@ -110,6 +175,11 @@ func startForKill(c killCase, bin, tmp string, managed bool) (*startedPlugin, er
 		sp.orig = p
 		sp.pair = &vp.Pair{Client: c2, Config: cfg, Cmd: p.Cmd}
 	}
+	return sp, applyBehaviour(c, sp, stub)
+}
+
+// applyBehaviour puts the started plugin in the state the case asks for.
+func applyBehaviour(c killCase, sp *startedPlugin, stub *vp.Stub) error {
 	switch c.Behaviour {
 	case "busy":
 		go stub.Do(vp.Cmd{Op: "sleep", Ms: 5000})
@@ -125,7 +195,7 @@ func startForKill(c killCase, bin, tmp string, managed bool) (*startedPlugin, er
 		}
 		time.Sleep(100 * time.Millisecond)
 	}
-	return sp, nil
+	return nil
 }
 
 func runKillCase(c killCase, bin, tmp string) killObs {
@@ -201,7 +271,11 @@ func finishKillObs(o *killObs, sps ...*startedPlugin) {
 			sp.orig.Client.Kill()
 		}
 		if !vp.PidGone(sp.pid) {
+			syscall.Kill(sp.pid, syscall.SIGCONT)
 			syscall.Kill(sp.pid, syscall.SIGKILL)
+		}
+		if sp.launcher != nil && sp.launcher.Process != nil {
+			sp.launcher.Process.Kill()
 		}
 	}
 	o.AllGone, o.AllExited = true, true
